@@ -79,6 +79,11 @@ def run_case(case: Dict) -> CaseResult:
     st: Dict[str, Any] = {"nt_at": None, "seen": set(), "steps": 0, "rich": 0, "pairs": 0, "max_off": 0, "leaves": 0}
 
     values: Dict[tuple, set] = {}
+    masked: set = set()  # component kinds seen with a non-default source value on a node that was not ON
+    gated: Dict[str, bool] = {}
+    if case["src"] == "gen":
+        o_ = case["spec"]["obs"]
+        gated = {"folder": o_["fs_scan"], "file": o_["fs_scan"], "service": o_["svc_scan"], "application": o_["app_scan"]}
 
     def check(tag: str, i: int, ret_obs) -> bool:
         exp = reader.expected(env.game)
@@ -122,6 +127,8 @@ def run_case(case: Dict) -> CaseResult:
             st["rich"] += 1
         if reader.pairs:
             st["pairs"] += 1
+        for k in reader.masked:
+            masked.add(k + (":gated" if gated.get(k) else ""))
         if off >= 3 and reader.pairs >= 1 and st["nt_at"] is None:
             st["nt_at"] = i
         return True
@@ -146,6 +153,8 @@ def run_case(case: Dict) -> CaseResult:
     res.label("src:" + case["src"])
     res.label("rich_step" if st["rich"] else "no_rich_step", "pair_step" if st["pairs"] else "no_pair_step")
     res.label(f"leaves<{10 ** len(str(st['leaves']))}")
+    for k in sorted(masked):
+        res.label("not_on_hides:" + k)
     # which kinds of leaf actually moved during the case (took >= 2 different values on one path)
     for kind in sorted({leaf_kind(list(p)) for p, vs in values.items() if len(vs) >= 2}):
         res.label("moved:" + kind)
